@@ -291,7 +291,9 @@ func nonNil(s []string) []string {
 }
 
 // small shared name universe so that every type pair collides
-func copyVariants(n string) []model.Tree {
+func copyVariants(n string) []model.Tree { return copyVariantsX(n, false) }
+
+func copyVariantsX(n string, dstSide bool) []model.Tree {
 	f := func(p string, v int) model.Entry {
 		d := fileData(int64(2000+v), 5+v)
 		return model.Entry{Path: p, Type: "file", Perm: 0640, Uid: 3, Gid: 4, Size: int64(len(d)), Data: d, DSeed: int64(2000 + v), Content: model.ContentID(d),
@@ -303,7 +305,7 @@ func copyVariants(n string) []model.Tree {
 	sym := func(p string) model.Entry {
 		return model.Entry{Path: p, Type: "symlink", Perm: 0777, Link: "nowhere", Mtime: 1400000000987654321}
 	}
-	return []model.Tree{
+	out := []model.Tree{
 		nil,
 		{f(n, 1)},
 		{sym(n)},
@@ -311,12 +313,20 @@ func copyVariants(n string) []model.Tree {
 		{dir(n, 0750), f(n+"/y", 2)},
 		{dir(n, 0750), dir(n+"/y", 0700)},
 	}
+	if dstSide {
+		// a symlink that points at the other name (a directory in some destination trees)
+		other := map[string]string{"x": "y", "y": "x"}[n]
+		l := sym(n)
+		l.Link = other
+		out = append(out, model.Tree{l})
+	}
+	return out
 }
 
 func copyUniverse(srcSide bool) []model.Tree {
 	var out []model.Tree
-	for _, a := range copyVariants("x") {
-		for _, b := range copyVariants("y") {
+	for _, a := range copyVariantsX("x", !srcSide) {
+		for _, b := range copyVariantsX("y", !srcSide) {
 			t := append(append(model.Tree{}, a...), b...)
 			if !srcSide {
 				// destination versions differ in content / metadata from the source versions
@@ -332,7 +342,7 @@ func copyUniverse(srcSide bool) []model.Tree {
 					if t[i].Type == "dir" {
 						t[i].Perm = 0711
 					}
-					if t[i].Type == "symlink" {
+					if t[i].Type == "symlink" && t[i].Link == "nowhere" {
 						t[i].Link = "elsewhere"
 					}
 				}
@@ -424,6 +434,9 @@ func Copy(c *Ctx) error {
 						// symlink in the destination tree at the position of a source entry
 						add(model.Tree{mk("f"), dirE("d"), mk("d/x")}, model.Tree{at(l, "f"), at(l, "d")}, "/", "/", true, false, "dstTreeCollides")
 						add(model.Tree{dirE("d"), mk("d/x"), mk("d/new")}, model.Tree{at(l, "d")}, "d", "/", false, false, "dstDirIsLink")
+						add(model.Tree{mk("f")}, model.Tree{at(l, "f")}, "/", "/", true, false, "dstFileIsLink")
+						add(model.Tree{mk("f")}, model.Tree{at(l, "f")}, "f", "f", false, false, "dstFileIsLinkArg")
+						add(model.Tree{dirE("d"), mk("d/f")}, model.Tree{dirE("d"), at(l, "d/f")}, "d", "/", false, false, "dstNestedFileIsLink")
 						// symlink as a component of the destination path argument
 						add(model.Tree{mk("f")}, model.Tree{at(l, "data")}, "f", "data/cache/v1/f", false, false, "dstArgThroughLink")
 						add(model.Tree{mk("f")}, model.Tree{at(l, "data")}, "f", "data/", false, false, "dstArgIsLinkSlash")
@@ -438,6 +451,37 @@ func Copy(c *Ctx) error {
 			n := 400
 			if c.Thorough() {
 				n = 8000
+			}
+			{
+				// systematic part on a fixed tree: single patterns and [X, !Y] pairs, as include and as exclude list
+				var full model.Tree
+				for _, p := range []string{"a", "a/a", "a/a/a", "a/a/b", "a/ab", "a/b", "a.txt", "ab", "ab/a", "ab/b", "b", "b/a", "b/a/a", "c"} {
+					isDir := p == "a" || p == "a/a" || p == "ab" || p == "b" || p == "b/a"
+					if isDir {
+						full = append(full, model.Entry{Path: p, Type: "dir", Perm: []uint32{0750, 0711, 0700}[len(full)%3], Uid: uint32(1 + len(full)%4), Gid: 2, Mtime: uniqueMtime()})
+					} else {
+						e := newFile(c.Rand, genOpts{})
+						e.Path = p
+						full = append(full, e)
+					}
+				}
+				full.Sort()
+				pats := []string{"a", "ab", "b", "*", "a*", "a/a", "a/b", "*/a", "*/b", "b/a", "a/*", "**/a", "a/a/*"}
+				for _, x := range pats {
+					for _, y := range append([]string{""}, pats...) {
+						if y != "" && !c.Thorough() && c.Rand.Intn(3) != 0 {
+							continue
+						}
+						l := []string{x}
+						if y != "" {
+							l = []string{x, "!" + y}
+						}
+						ci, ce := def, def
+						ci.Kind, ci.Src, ci.SrcArg, ci.DstArg, ci.Contents, ci.Origin, ci.Inc = "filter", full, "/", "/", true, "systematic", l
+						ce.Kind, ce.Src, ce.SrcArg, ce.DstArg, ce.Contents, ce.Origin, ce.Exc = "filter", full, "/", "/", true, "systematic", l
+						cases = append(cases, ci, ce)
+					}
+				}
 			}
 			for i := 0; i < n; i++ {
 				t := filterTree(c)
